@@ -35,9 +35,10 @@ type chainCase struct {
 	RH       []hspec   `json:"route_handlers,omitempty"`
 	NF       []hspec   `json:"notfound_handlers,omitempty"`
 	Action   *hspec    `json:"action,omitempty"`
-	NotFound bool      `json:"request_unrouted,omitempty"` // drive the not-found chain
-	Wrapper  bool      `json:"handler_wrapper,omitempty"`  // Router.HandlerWrapper turns the reflective func(Context,*http.Request) handlers into a FastInvoker
-	Method   string    `json:"method,omitempty"`           // GET (default) | HEAD | POST: for HEAD no body byte is forwarded, yet a body write still counts as "written"
+	NotFound bool      `json:"request_unrouted,omitempty"`                  // drive the not-found chain
+	Probe    int       `json:"sibling_route_with_handler_prefix,omitempty"` // >0: a sibling route /probe is registered with the first Probe handlers of the very slice /x is given (and requested first, or second when negative)
+	Wrapper  bool      `json:"handler_wrapper,omitempty"`                   // Router.HandlerWrapper turns the reflective func(Context,*http.Request) handlers into a FastInvoker
+	Method   string    `json:"method,omitempty"`                            // GET (default) | HEAD | POST: for HEAD no body byte is forwarded, yet a body write still counts as "written"
 }
 
 func init() {
@@ -115,6 +116,9 @@ func genChainCase(r *rand.Rand) *chainCase {
 	}
 	c.Method = []string{"GET", "GET", "GET", "HEAD", "HEAD", "POST"}[r.Intn(6)]
 	c.Wrapper = r.Intn(4) == 0
+	if len(c.RH) >= 2 && r.Intn(5) == 0 {
+		c.Probe = 1 + r.Intn(len(c.RH)-1)
+	}
 	if r.Intn(6) == 0 {
 		c.NotFound = true
 		for i := r.Intn(3); i > 0; i-- {
@@ -497,6 +501,11 @@ func judgeChain(w *core.W, c *chainCase) {
 				rhs = append(rhs, x.mk(ridx, &c.RH[i]))
 				ridx++
 			}
+			if c.Probe > 0 && c.Probe < len(rhs) {
+				// a sibling route that is given a prefix of the same slice (same backing array, same first handler):
+				// each route still runs its own chain
+				f.Route(c.method(), "/probe", rhs[:c.Probe])
+			}
 			f.Route(c.method(), "/x", rhs)
 			return
 		}
@@ -518,6 +527,19 @@ func judgeChain(w *core.W, c *chainCase) {
 	target := path + "/x"
 	if c.NotFound {
 		target = "/nowhere"
+	}
+	if c.Probe > 0 && c.Probe < len(c.RH) && !c.NotFound {
+		// the sibling is requested first; whatever serving it leaves behind must not influence the chain of /x
+		pctx, pcancel := gocontext.WithCancel(gocontext.Background())
+		x.cancel = pcancel
+		func() {
+			defer func() { _ = recover() }()
+			ptr := []string{}
+			f.ServeHTTP(&chainSpy{hdr: http.Header{}, tr: &ptr}, (&http.Request{Method: c.method(), URL: &url.URL{Path: path + "/probe"}, Header: http.Header{}}).WithContext(pctx))
+		}()
+		pcancel()
+		x.tr, x.entered, x.reenter, x.cancel = nil, map[int]int{}, "", cancel
+		w.Count("sibling-route-with-shared-handler-prefix")
 	}
 	spy := &chainSpy{hdr: http.Header{}, tr: &x.tr}
 	req := (&http.Request{Method: c.method(), URL: &url.URL{Path: target}, Header: http.Header{}, RequestURI: target}).WithContext(ctx)
@@ -616,7 +638,7 @@ func runC03(r *core.Run) {
 		judgeChain(w, c)
 	})
 	r.Gate("distinct_nontrivial", r.NonTrivialCount(), 2000)
-	for _, k := range []string{"nil-action-reached", "not-found-chain", "panic-unwound", "next-twice-in-one-handler", "cancel-executed", "cancel-of-replaced-request-context", "head-request-written"} {
+	for _, k := range []string{"nil-action-reached", "not-found-chain", "panic-unwound", "next-twice-in-one-handler", "cancel-executed", "cancel-of-replaced-request-context", "head-request-written", "sibling-route-with-shared-handler-prefix"} {
 		r.GateCounter(k, 50)
 	}
 }
